@@ -31,8 +31,15 @@ static bool is_map(int k) { return k <= K_LISTTBL; }
 
 /* operations */
 enum { O_PUT, O_GET, O_REMOVE, O_CLEAR, O_WALK,                       /* maps */
-       O_ADDFIRST, O_ADDLAST, O_POPFIRST, O_POPLAST, O_GETFIRST, O_GETLAST, O_TOARRAY, O_TOSTRING, O_SEQCLEAR, NOPS };
-static const char *ONAME[NOPS] = {"put", "get", "remove", "clear", "locked-walk", "addfirst", "addlast", "popfirst", "poplast", "getfirst", "getlast", "toarray", "tostring", "clear"};
+       O_ADDFIRST, O_ADDLAST, O_POPFIRST, O_POPLAST, O_GETFIRST, O_GETLAST, O_TOARRAY, O_TOSTRING, O_SEQCLEAR,
+       O_FINDMIN, O_FINDMAX, O_NEAREST,                                  /* tree only: copying ordered lookups */
+       O_ADDAT, O_GETAT, O_POPAT,                                         /* list, vector: position = key */
+       NOPS };
+static const char *ONAME[NOPS] = {"put", "get", "remove", "clear", "locked-walk", "addfirst", "addlast", "popfirst", "poplast", "getfirst", "getlast", "toarray", "tostring", "clear",
+                                  "find_min", "find_max", "find_nearest", "addat", "getat", "popat"};
+static bool is_add(int op) { return op == O_ADDFIRST || op == O_ADDLAST || op == O_ADDAT; }
+static bool is_pop(int op) { return op == O_POPFIRST || op == O_POPLAST || op == O_POPAT; }
+static bool is_seqget(int op) { return op == O_GETFIRST || op == O_GETLAST || op == O_GETAT; }
 #define MAXSNAP 24
 typedef struct { int op, key; uint64_t val; } opspec_t;
 typedef struct { int ok; uint64_t val; int n; uint64_t snap[MAXSNAP]; uint64_t keys[MAXSNAP]; } opres_t;
@@ -87,6 +94,10 @@ static void do_op(ctx_t *c, const opspec_t *s, opres_t *r) {
         case O_WALK: { qtreetbl_obj_t o; memset(&o, 0, sizeof o); t->lock(t);
             while (t->getnext(t, &o, false) && r->n < MAXSNAP) { r->keys[r->n] = (uint64_t)kid(o.name); if (o.datasize == 8) memcpy(&r->snap[r->n], o.data, 8); else r->snap[r->n] = ~0ULL; r->n++; }
             t->unlock(t); r->ok = 1; break; }
+        case O_FINDMIN: case O_FINDMAX: { size_t ns = 0; char *nm = s->op == O_FINDMIN ? t->find_min(t, &ns) : t->find_max(t, &ns); r->ok = nm != NULL;
+            if (nm) { r->keys[0] = (ns == strlen(k) + 1 && nm[ns - 1] == 0) ? (uint64_t)kid(nm) : 99; free(nm); } break; }
+        case O_NEAREST: { qtreetbl_obj_t o = t->find_nearest(t, k, strlen(k) + 1, true); r->ok = o.name != NULL;
+            if (o.name) { r->keys[0] = (o.namesize == strlen(k) + 1 && ((char *)o.name)[o.namesize - 1] == 0) ? (uint64_t)kid(o.name) : 99; if (o.datasize == 8 && o.data) memcpy(&r->val, o.data, 8); else r->val = ~0ULL; free(o.name); free(o.data); } break; }
         } break; }
     case K_HASH: { qhashtbl_t *t = c->hash;
         switch (s->op) {
@@ -117,10 +128,13 @@ static void do_op(ctx_t *c, const opspec_t *s, opres_t *r) {
         case O_GETFIRST: d = l->getfirst(l, &sz, true); break;
         case O_GETLAST: d = l->getlast(l, &sz, true); break;
         case O_SEQCLEAR: l->clear(l); r->ok = 1; break;
+        case O_ADDAT: r->ok = l->addat(l, s->key, &v, 8); break;
+        case O_GETAT: d = l->getat(l, s->key, &sz, true); break;
+        case O_POPAT: d = l->popat(l, s->key, &sz); break;
         case O_TOARRAY: { size_t tot = 0; void *a = l->toarray(l, &tot); r->ok = 1; if (a) { if (tot % 8) r->n = -1; else { r->n = (int)(tot / 8 > MAXSNAP ? MAXSNAP : tot / 8); memcpy(r->snap, a, (size_t)r->n * 8); } free(a); } break; }
         case O_TOSTRING: { char *a = l->tostring(l); r->ok = 1; if (a) { /* elements are 8 bytes without NUL inside (ids have no zero byte) */ size_t len = strlen(a); if (len % 8) r->n = -1; else { r->n = (int)(len / 8 > MAXSNAP ? MAXSNAP : len / 8); memcpy(r->snap, a, (size_t)r->n * 8); } free(a); } break; }
         }
-        if (s->op >= O_POPFIRST && s->op <= O_GETLAST) { r->ok = d != NULL; if (d) { if (sz == 8) memcpy(&r->val, d, 8); else r->val = ~0ULL; free(d); } }
+        if (is_pop(s->op) || is_seqget(s->op)) { r->ok = d != NULL; if (d) { if (sz == 8) memcpy(&r->val, d, 8); else r->val = ~0ULL; free(d); } }
         break; }
     case K_QUEUE: case K_STACK: { size_t sz = 0; void *d = NULL; qqueue_t *q = c->queue; qstack_t *st = c->stack; bool isq = c->kind == K_QUEUE;
         switch (s->op) {
@@ -140,9 +154,12 @@ static void do_op(ctx_t *c, const opspec_t *s, opres_t *r) {
         case O_GETFIRST: d = vv->getfirst(vv, true); break;
         case O_GETLAST: d = vv->getlast(vv, true); break;
         case O_SEQCLEAR: vv->clear(vv); r->ok = 1; break;
+        case O_ADDAT: r->ok = vv->addat(vv, s->key, &v); break;
+        case O_GETAT: d = vv->getat(vv, s->key, true); break;
+        case O_POPAT: d = vv->popat(vv, s->key); break;
         case O_TOARRAY: { size_t cnt = 0; void *a = vv->toarray(vv, &cnt); r->ok = 1; if (a) { r->n = (int)(cnt > MAXSNAP ? MAXSNAP : cnt); memcpy(r->snap, a, (size_t)r->n * 8); free(a); } break; }
         }
-        if (s->op >= O_POPFIRST && s->op <= O_GETLAST) { r->ok = d != NULL; if (d) { memcpy(&r->val, d, 8); free(d); } }
+        if (is_pop(s->op) || is_seqget(s->op)) { r->ok = d != NULL; if (d) { memcpy(&r->val, d, 8); free(d); } }
         break; }
     }
 }
@@ -166,6 +183,11 @@ static bool model_apply(int kind, model_t *m, const hop_t *h) {
             if (r->n != cnt) return false;
             for (int i = 0; i < r->n; i++) { if (r->keys[i] >= NKEYS || m->map[r->keys[i]] != r->snap[i]) return false; for (int j = 0; j < i; j++) if (r->keys[j] == r->keys[i]) return false; }
             return true; }
+        case O_FINDMIN: case O_FINDMAX: { int f = -1; for (int k = 0; k < NKEYS; k++) if (m->map[k]) { f = k; if (s->op == O_FINDMIN) break; }
+            return f < 0 ? !r->ok : (r->ok && (int)r->keys[0] == f); }
+        case O_NEAREST: { int f = -1; for (int k = 0; k <= s->key; k++) if (m->map[k]) f = k;          /* floor ... */
+            if (f < 0) for (int k = NKEYS - 1; k > s->key; k--) if (m->map[k]) f = k;                   /* ... else the smallest key */
+            return f < 0 ? !r->ok : (r->ok && (int)r->keys[0] == f && r->val == m->map[f]); }
         }
         return false;
     }
@@ -178,6 +200,9 @@ static bool model_apply(int kind, model_t *m, const hop_t *h) {
     case O_GETFIRST: if (m->n == 0) return !r->ok; return r->ok && r->val == m->seq[0];
     case O_GETLAST: if (m->n == 0) return !r->ok; return r->ok && r->val == m->seq[m->n - 1];
     case O_SEQCLEAR: m->n = 0; return true;
+    case O_ADDAT: if (s->key > m->n) return !r->ok; seq_ins(m, s->key, s->val); return r->ok == 1;
+    case O_GETAT: if (s->key >= m->n) return !r->ok; return r->ok && r->val == m->seq[s->key];
+    case O_POPAT: if (s->key >= m->n) return !r->ok; { uint64_t v = seq_del(m, s->key); return r->ok && r->val == v; }
     case O_TOARRAY: case O_TOSTRING: if (r->n != m->n) return false; return m->n == 0 || !memcmp(r->snap, m->seq, (size_t)m->n * 8);
     }
     return false;
@@ -221,11 +246,13 @@ static int linearizable(int kind, hop_t *H, int n, const model_t *init, int *ord
 }
 static void describe(char *b, size_t bs, const hop_t *h) {
     int n = snprintf(b, bs, "T%d %s", h->thread, ONAME[h->s.op]);
-    if (h->s.op <= O_REMOVE) n += snprintf(b + n, bs - (size_t)n, "(k%d", h->s.key); else n += snprintf(b + n, bs - (size_t)n, "(");
-    if (h->s.op == O_PUT || h->s.op == O_ADDFIRST || h->s.op == O_ADDLAST) n += snprintf(b + n, bs - (size_t)n, "%sv%llx", h->s.op == O_PUT ? "," : "", (unsigned long long)h->s.val);
+    if (h->s.op <= O_REMOVE || h->s.op == O_NEAREST) n += snprintf(b + n, bs - (size_t)n, "(k%d", h->s.key); else if (h->s.op >= O_ADDAT) n += snprintf(b + n, bs - (size_t)n, "(@%d", h->s.key); else n += snprintf(b + n, bs - (size_t)n, "(");
+    if (h->s.op == O_PUT || is_add(h->s.op)) n += snprintf(b + n, bs - (size_t)n, "%sv%llx", h->s.op == O_PUT || h->s.op == O_ADDAT ? "," : "", (unsigned long long)h->s.val);
     n += snprintf(b + n, bs - (size_t)n, ") -> ");
     if (h->s.op == O_WALK || h->s.op == O_TOARRAY || h->s.op == O_TOSTRING) { n += snprintf(b + n, bs - (size_t)n, "["); for (int i = 0; i < h->r.n && n < (int)bs - 30; i++) n += snprintf(b + n, bs - (size_t)n, h->s.op == O_WALK ? "k%llu=v%llx " : "%.0llu" "v%llx ", h->s.op == O_WALK ? (unsigned long long)h->r.keys[i] : 0ULL, (unsigned long long)h->r.snap[i]); n += snprintf(b + n, bs - (size_t)n, "]"); }
-    else if (h->r.ok && (h->s.op == O_GET || (h->s.op >= O_POPFIRST && h->s.op <= O_GETLAST))) n += snprintf(b + n, bs - (size_t)n, "v%llx", (unsigned long long)h->r.val);
+    else if (h->r.ok && (h->s.op == O_FINDMIN || h->s.op == O_FINDMAX)) n += snprintf(b + n, bs - (size_t)n, "k%llu", (unsigned long long)h->r.keys[0]);
+    else if (h->r.ok && h->s.op == O_NEAREST) n += snprintf(b + n, bs - (size_t)n, "k%llu=v%llx", (unsigned long long)h->r.keys[0], (unsigned long long)h->r.val);
+    else if (h->r.ok && (h->s.op == O_GET || is_pop(h->s.op) || is_seqget(h->s.op))) n += snprintf(b + n, bs - (size_t)n, "v%llx", (unsigned long long)h->r.val);
     else n += snprintf(b + n, bs - (size_t)n, "%s", h->r.ok ? "ok" : "none/false");
     snprintf(b + n, bs - (size_t)n, "  [inv %ld, resp %ld]", h->inv, h->resp);
 }
@@ -358,13 +385,15 @@ static int run_execution(program_t *pg, model_t *init, int *total_ops) {
 }
 
 static const int MAPOPS[] = {O_PUT, O_PUT, O_GET, O_REMOVE, O_REMOVE, O_CLEAR, O_WALK};
-static const int SEQOPS_LIST[] = {O_ADDFIRST, O_ADDLAST, O_ADDLAST, O_POPFIRST, O_POPFIRST, O_POPLAST, O_GETFIRST, O_GETLAST, O_TOARRAY, O_TOSTRING, O_SEQCLEAR};
-static const int SEQOPS_VEC[] = {O_ADDFIRST, O_ADDLAST, O_ADDLAST, O_POPFIRST, O_POPFIRST, O_POPLAST, O_GETFIRST, O_GETLAST, O_TOARRAY, O_TOARRAY, O_SEQCLEAR};
+static const int TREEOPS[] = {O_PUT, O_PUT, O_GET, O_REMOVE, O_REMOVE, O_CLEAR, O_WALK, O_FINDMIN, O_FINDMAX, O_NEAREST, O_PUT, O_REMOVE};
+static const int SEQOPS_LIST[] = {O_ADDFIRST, O_ADDLAST, O_ADDLAST, O_POPFIRST, O_POPFIRST, O_POPLAST, O_GETFIRST, O_GETLAST, O_TOARRAY, O_TOSTRING, O_SEQCLEAR, O_ADDAT, O_GETAT, O_POPAT};
+static const int SEQOPS_VEC[] = {O_ADDFIRST, O_ADDLAST, O_ADDLAST, O_POPFIRST, O_POPFIRST, O_POPLAST, O_GETFIRST, O_GETLAST, O_TOARRAY, O_TOARRAY, O_SEQCLEAR, O_ADDAT, O_GETAT, O_POPAT};
 static const int SEQOPS_QS[] = {O_ADDLAST, O_ADDLAST, O_POPFIRST, O_POPFIRST, O_GETFIRST, O_SEQCLEAR};
 static int pick_op(int kind, rng_t *r) {
+    if (kind == K_TREE) return TREEOPS[rng_below(r, 12)];
     if (is_map(kind)) return MAPOPS[rng_below(r, 7)];
-    if (kind == K_LIST) return SEQOPS_LIST[rng_below(r, 11)];
-    if (kind == K_VECTOR) return SEQOPS_VEC[rng_below(r, 11)];
+    if (kind == K_LIST) return SEQOPS_LIST[rng_below(r, 14)];
+    if (kind == K_VECTOR) return SEQOPS_VEC[rng_below(r, 14)];
     return SEQOPS_QS[rng_below(r, 6)];
 }
 static void gen_program(program_t *pg, long pid, rng_t *r) {
@@ -382,12 +411,15 @@ static void gen_program(program_t *pg, long pid, rng_t *r) {
     if (d == 1 && (pg->kind == K_LIST || pg->kind == K_VECTOR)) { pg->nthreads = 2; pg->nops[0] = 1; pg->nops[1] = 2; pg->prefill = 0; pg->ops[0][0].op = O_TOARRAY; pg->ops[1][0].op = O_ADDLAST; pg->ops[1][1].op = O_ADDLAST; }
     if (d == 0 && is_map(pg->kind)) { pg->nthreads = 3; pg->prefill = 1; for (int t = 0; t < 3; t++) { pg->nops[t] = 2; } pg->ops[0][0].op = O_PUT; pg->ops[0][1].op = O_PUT; pg->ops[1][0].op = O_REMOVE; pg->ops[1][1].op = O_GET; pg->ops[2][0].op = O_GET; pg->ops[2][1].op = O_REMOVE; for (int t = 0; t < 3; t++) for (int i = 0; i < 2; i++) pg->ops[t][i].key = 0; }
     if (d == 1 && is_map(pg->kind)) { pg->nthreads = 2; pg->prefill = 2; pg->nops[0] = 1; pg->nops[1] = 2; pg->ops[0][0].op = O_WALK; pg->ops[1][0].op = O_PUT; pg->ops[1][1].op = O_REMOVE; pg->ops[1][0].key = 0; pg->ops[1][1].key = 1; }
+    if (d >= 2 && d <= 4 && pg->kind == K_TREE) { pg->nthreads = 2; pg->prefill = 2; pg->nops[0] = 1; pg->nops[1] = 2; pg->ops[0][0].op = d == 2 ? O_FINDMIN : d == 3 ? O_FINDMAX : O_NEAREST; pg->ops[0][0].key = 1;
+        pg->ops[1][0].op = O_REMOVE; pg->ops[1][0].key = d == 2 ? 0 : 1; pg->ops[1][1].op = O_PUT; pg->ops[1][1].key = d == 2 ? 0 : 1; }
+    if (d == 3 && (pg->kind == K_LIST || pg->kind == K_VECTOR)) { pg->nthreads = 2; pg->prefill = 2; pg->nops[0] = 2; pg->nops[1] = 2; pg->ops[0][0].op = O_GETAT; pg->ops[0][0].key = 1; pg->ops[0][1].op = O_ADDAT; pg->ops[0][1].key = 1; pg->ops[1][0].op = O_POPAT; pg->ops[1][0].key = 0; pg->ops[1][1].op = O_POPAT; pg->ops[1][1].key = 1; }
     if (d == 2 && pg->kind == K_LIST) { pg->nthreads = 2; pg->nops[0] = 1; pg->nops[1] = 2; pg->prefill = 1; pg->ops[0][0].op = O_TOSTRING; pg->ops[1][0].op = O_POPFIRST; pg->ops[1][1].op = O_ADDLAST; }
 }
 static void program_text(program_t *pg, char *b, size_t bs) {
     int n = snprintf(b, bs, "%s prefill=%d: ", KNAME[pg->kind], pg->prefill);
     for (int t = 0; t < pg->nthreads; t++) { n += snprintf(b + n, bs - (size_t)n, "%sT%d{", t ? " || " : "", t);
-        for (int i = 0; i < pg->nops[t]; i++) n += snprintf(b + n, bs - (size_t)n, "%s%s%s", i ? ";" : "", ONAME[pg->ops[t][i].op], pg->ops[t][i].op <= O_REMOVE ? (pg->ops[t][i].key ? "(k1)" : "(k0)") : "");
+        for (int i = 0; i < pg->nops[t]; i++) n += snprintf(b + n, bs - (size_t)n, "%s%s%s", i ? ";" : "", ONAME[pg->ops[t][i].op], (pg->ops[t][i].op <= O_REMOVE || pg->ops[t][i].op == O_NEAREST) ? (pg->ops[t][i].key ? "(k1)" : "(k0)") : pg->ops[t][i].op >= O_ADDAT ? (pg->ops[t][i].key ? "(@1)" : "(@0)") : "");
         n += snprintf(b + n, bs - (size_t)n, "}"); }
 }
 
@@ -486,6 +518,7 @@ static int check_map_history(int kind, hop_t *all, int n, hop_t *fin) {
             hop_t h = all[i];
             if (h.s.op == O_CLEAR) { h.s.op = O_REMOVE; h.s.key = k; h.r.ok = -1; }     /* projected: remove with unknown result */
             else if (h.s.op == O_WALK) { int f = -1; for (int j = 0; j < h.r.n; j++) if ((int)h.r.keys[j] == k) f = j; h.s.op = O_GET; h.s.key = k; h.r.ok = f >= 0; h.r.val = f >= 0 ? h.r.snap[f] : 0; }
+            else if (h.s.op == O_FINDMIN || h.s.op == O_FINDMAX || h.s.op == O_NEAREST) continue;   /* touch every key: judged by check_ordered_lookups */
             else if (h.s.key != k) continue;
             sub[m++] = h;
         }
@@ -498,6 +531,16 @@ static int check_map_history(int kind, hop_t *all, int n, hop_t *fin) {
     }
     return worst;
 }
+/* tree: find_min/find_max/find_nearest results must name a key, and (nearest) a value, that some put invoked before the response stored */
+static const char *check_ordered_lookups(hop_t *all, int n) {
+    for (int i = 0; i < n; i++) { hop_t *g = &all[i]; if (g->s.op != O_FINDMIN && g->s.op != O_FINDMAX && g->s.op != O_NEAREST) continue;
+        vf_count("stress_ordered_lookups_checked", 1);
+        if (!g->r.ok) continue;
+        if (g->r.keys[0] >= NKEYS) return "an ordered lookup returned a key that was never stored (torn or freed name)";
+        bool okk = false; for (int k = 0; k < n; k++) if (all[k].s.op == O_PUT && (uint64_t)all[k].s.key == g->r.keys[0] && all[k].inv < g->resp && (g->s.op != O_NEAREST || all[k].s.val == g->r.val)) okk = true;
+        if (!okk) return g->s.op == O_NEAREST ? "find_nearest returned a key/value pair that no put invoked before it stored" : "find_min/max returned a key that no put invoked before it stored"; }
+    return NULL;
+}
 /* sequences: conservation and order rules over unique values */
 static const char *check_seq_history(int kind, hop_t *all, int n, hop_t *fin) {
     /* every value popped or finally present must have been added (successfully) exactly once; nothing popped twice;
@@ -505,26 +548,30 @@ static const char *check_seq_history(int kind, hop_t *all, int n, hop_t *fin) {
     bool has_clear = false; for (int i = 0; i < n; i++) if (all[i].s.op == O_SEQCLEAR) has_clear = true;
     for (int i = 0; i < n; i++) {
         hop_t *p = &all[i];
-        if (!(p->s.op == O_POPFIRST || p->s.op == O_POPLAST) || !p->r.ok) continue;
-        int adder = -1; for (int j = 0; j < n; j++) if ((all[j].s.op == O_ADDFIRST || all[j].s.op == O_ADDLAST) && all[j].s.val == p->r.val) adder = j;
+        if (!is_pop(p->s.op) || !p->r.ok) continue;
+        int adder = -1; for (int j = 0; j < n; j++) if (is_add(all[j].s.op) && all[j].s.val == p->r.val) adder = j;
         if (adder < 0) return "a pop returned a value that no thread added";
         if (all[adder].inv > p->resp) return "a pop returned a value before its add was invoked";
-        for (int j = i + 1; j < n; j++) if ((all[j].s.op == O_POPFIRST || all[j].s.op == O_POPLAST) && all[j].r.ok && all[j].r.val == p->r.val) return "the same value was popped twice (duplicated element)";
+        for (int j = i + 1; j < n; j++) if (is_pop(all[j].s.op) && all[j].r.ok && all[j].r.val == p->r.val) return "the same value was popped twice (duplicated element)";
         for (int j = 0; j < fin->r.n; j++) if (fin->r.snap[j] == p->r.val) return "a popped value is still in the container (duplicated element)";
     }
-    for (int j = 0; j < fin->r.n; j++) { int adder = -1; for (int i = 0; i < n; i++) if ((all[i].s.op == O_ADDFIRST || all[i].s.op == O_ADDLAST) && all[i].s.val == fin->r.snap[j]) adder = i;
+    for (int j = 0; j < fin->r.n; j++) { int adder = -1; for (int i = 0; i < n; i++) if (is_add(all[i].s.op) && all[i].s.val == fin->r.snap[j]) adder = i;
         if (adder < 0) return "the final contents hold a value that no thread added";
         for (int k = j + 1; k < fin->r.n; k++) if (fin->r.snap[k] == fin->r.snap[j]) return "the final contents hold a value twice"; }
-    if (!has_clear) for (int i = 0; i < n; i++) { hop_t *a = &all[i]; if (!(a->s.op == O_ADDFIRST || a->s.op == O_ADDLAST) || !a->r.ok) continue;
+    if (!has_clear) for (int i = 0; i < n; i++) { hop_t *a = &all[i]; if (!is_add(a->s.op) || !a->r.ok) continue;
         bool found = false; for (int j = 0; j < fin->r.n; j++) if (fin->r.snap[j] == a->s.val) found = true;
-        for (int j = 0; j < n; j++) if ((all[j].s.op == O_POPFIRST || all[j].s.op == O_POPLAST) && all[j].r.ok && all[j].r.val == a->s.val) found = true;
+        for (int j = 0; j < n; j++) if (is_pop(all[j].s.op) && all[j].r.ok && all[j].r.val == a->s.val) found = true;
         if (!found) return "a successfully added value was neither popped nor present at the end (lost update)"; }
     /* snapshots: toarray/tostring must contain no duplicates and only values whose add was invoked before the snapshot responded */
     for (int i = 0; i < n; i++) { hop_t *s = &all[i]; if (s->s.op != O_TOARRAY && s->s.op != O_TOSTRING) continue;
         if (s->r.n < 0) return "a flattening returned a torn element";
-        for (int j = 0; j < s->r.n; j++) { int adder = -1; for (int k = 0; k < n; k++) if ((all[k].s.op == O_ADDFIRST || all[k].s.op == O_ADDLAST) && all[k].s.val == s->r.snap[j]) adder = k;
+        for (int j = 0; j < s->r.n; j++) { int adder = -1; for (int k = 0; k < n; k++) if (is_add(all[k].s.op) && all[k].s.val == s->r.snap[j]) adder = k;
             if (adder < 0) return "a flattening contains a value that no thread added"; if (all[adder].inv > s->resp) return "a flattening contains a value from the future";
             for (int k = j + 1; k < s->r.n; k++) if (s->r.snap[k] == s->r.snap[j]) return "a flattening contains a value twice (not a snapshot)"; } }
+    /* copying reads: the value must have been added by a call invoked before the read responded */
+    for (int i = 0; i < n; i++) { hop_t *g = &all[i]; if (!is_seqget(g->s.op) || !g->r.ok) continue;
+        int adder = -1; for (int k = 0; k < n; k++) if (is_add(all[k].s.op) && all[k].s.val == g->r.val) adder = k;
+        if (adder < 0) return "a copying get returned a value that no thread added"; if (all[adder].inv > g->resp) return "a copying get returned a value from the future"; }
     /* queue: FIFO per producer - values of one producer are popped in the order they were pushed */
     if (kind == K_QUEUE && !has_clear) for (int i = 0; i < n; i++) for (int j = 0; j < n; j++) {
         hop_t *a = &all[i], *b = &all[j];
@@ -565,6 +612,8 @@ static void stress_case(long caseno) {
     if (fin.r.n == -2) vf_count("stress_histories_final_too_long_skipped", 1);
     else if (is_map(S_KIND)) {
         int r = check_map_history(S_KIND, all, n, &fin);
+        const char *why = S_KIND == K_TREE ? check_ordered_lookups(all, n) : NULL;
+        if (why) { for (int i = 0; i < n && i < 200; i++) { char b[400]; describe(b, sizeof b, &all[i]); vf_log("%s", b); } vf_viol("C13", "stress-ordered-lookup:qtreetbl", "stress history (%d threads x %d ops): %s", S_NT, S_OPS, why); }
         if (r == 0) { char key[100]; snprintf(key, sizeof key, "stress-not-linearizable:%s", KNAME[S_KIND]); vf_viol("C13", key, "stress history (%d threads x %d ops) has a key whose sub-history is not linearizable", S_NT, S_OPS); }
         else vf_count(r > 0 ? "stress_histories_linearizable" : "stress_histories_inconclusive", 1);
     } else {
